@@ -412,8 +412,15 @@ class AnsiString:
                         del settings_point.rem[i]
 
                 if idx == end:
-                    if end != len(self._s):
-                        settings_point.add += removed_settings
+                    if end != len(self._s) and removed_settings:
+                        # current_settings still reflects the original settings at this index in their original
+                        # order - stop everything that carries on and restart it all to maintain that order
+                        settings_point.rem.extend([
+                            s for s in current_settings
+                            if __class__._find_setting_reference(s, settings_point.add) < 0
+                            and __class__._find_setting_reference(s, removed_settings) < 0
+                        ])
+                        settings_point.add = list(current_settings)
                 else:
                     kept_settings = []
                     for s in settings_point.add:
